@@ -389,10 +389,10 @@ def natural_case(spec):
 def check(rep, tier, seed, specs=None, n_override=None):
     quick = tier == 'quick'
     if specs is None:
-        n = n_override or (48 if quick else 3000)
+        n = n_override or (48 if quick else 400)
         specs = [{'seed': common.hash64('c07', 'fixed' if i < n // 2 else seed, i), 'max_faults': 2 if quick else 3,
-                  'max_sets': 40 if quick else 200, 'cli': (i % 6 == 0)} for i in range(n)]
-        nn = (n_override or (96 if quick else 6000))
+                  'max_sets': 40 if quick else 150, 'cli': (i % 6 == 0)} for i in range(n)]
+        nn = (n_override or (96 if quick else 3000))
         specs += [{'kind': 'natural', 'seed': common.hash64('c07n', 'fixed' if i < nn // 2 else seed, i), 'cli': i % 6 == 0}
                   for i in range(nn)]
     results, lost = common.shard_run('c07', specs, timeout_s=1800 if quick else 8 * 3600)
